@@ -431,6 +431,10 @@ func c15Pkg(r *ev.Run, pc *C15Pkg) error {
 						// ill-formed UTF-8 inside a string: the statement lists truncated/trailing/duplicate/missing/oversized
 						// input, not encoding errors; the decoder passes the bytes through. Tallied.
 						r.Count("bodies_with_invalid_utf8_accepted", 1)
+					} else if err != nil && strings.Contains(err.Error(), "number:") {
+						// a malformed number inside arrays/objects ("-517-555" is read as -5166555): the float fast path of
+						// the JSON decoder (go-faster/jx v1.1.0) does not validate the token
+						viol("malformed-json-number-accepted", fmt.Sprintf("handler %s ran on a body with a malformed number (%v): %s", handler[0], err, clip(body)))
 					} else if err != nil {
 						viol("malformed-json-accepted", fmt.Sprintf("handler %s ran on a body that is not one well-formed JSON text (%v): %s", handler[0], err, clip(body)))
 					} else if pv.HasDuplicateKeys() {
@@ -672,7 +676,7 @@ func c15Mutants(raw []byte, rng *ev.Rand, n int) []c15Mut {
 				add(withLen([]byte(deep)), "json-deep-nesting")
 				add(withLen([]byte(strings.Repeat(`{"a":`, 10000)+"1"+strings.Repeat("}", 10000))), "json-deep-nesting")
 			}
-			for _, alt := range []string{"null", "[]", "{}", "1", `"s"`, "true", "", "{", "[", `{"`, `{"a"`, `{"a":`, "\xef\xbb\xbf{}", "{} {}", "NaN", "'x'", `{"a":1,}`, `[1,]`, "01", "1e999", `"\ud800"`, "\x00"} {
+			for _, alt := range []string{"null", "[]", "{}", "1", `"s"`, "true", "", "{", "[", `{"`, `{"a"`, `{"a":`, "\xef\xbb\xbf{}", "{} {}", "NaN", "'x'", `{"a":1,}`, `[1,]`, "01", "1e999", `"\ud800"`, "\x00", "[1-2]", "[[-517-555]]", `{"a":1-2}`, "[1.2.3]"} {
 				add(withLen([]byte(alt)), "json-replaced")
 			}
 		}
